@@ -88,7 +88,7 @@ def check_proofs(pid):
         if b.startswith('Closed'):
             axs = []
         else:
-            axs = re.findall(r'^([A-Za-z_][\w.\']*)\s*:', b, flags=re.M)
+            axs = [a for a in re.findall(r'^([A-Za-z_][\w.\']*)\s*:', b, flags=re.M) if a != 'Axioms']
         info['assumptions'][o] = axs
         if all(a in ALLOWED_AXIOMS or a.split('.')[-1] in ALLOWED_AXIOMS for a in axs):
             info['discharged'].append(o)
@@ -107,6 +107,7 @@ def main():
     ap.add_argument('pid')
     ap.add_argument('--tier', default=os.environ.get('VERIF_TIER', 'quick'))
     ap.add_argument('--replay')
+    ap.add_argument('--dev-skip-proofs', action='store_true', help='development only: do not check the proof obligations')
     args = ap.parse_args()
     pid = args.pid
     tier = args.tier if args.tier in ('quick', 'thorough') else 'quick'
@@ -124,6 +125,9 @@ def main():
 
     # 1. proofs
     proofs_ok, pinfo = check_proofs(pid)
+    if args.dev_skip_proofs:
+        proofs_ok = True
+        print('DEV MODE: proof obligations skipped - not a valid check run')
 
     # 2. harness against /repo's working tree
     ok, out = jv.build_implrun()
@@ -132,8 +136,8 @@ def main():
 
     # 3. correspondence
     report = fam.run_property(pid, P, rng, tier, seed, escalate=not proofs_ok)
-    if report['A_diffs'] or report['B_diffs']:
-        if not report['escalated']:
+    if (report['A_diffs'] or report['B_diffs']) and not report['witnesses']:
+        if not report['escalated'] and P.get('B'):
             # a correspondence broke: search harder for a concrete failing input
             report2 = fam.run_property(pid, P, random.Random(seed + 7919), 'thorough', seed, escalate=True, only_B=True)
             report['witnesses'] += report2['witnesses']
